@@ -3,6 +3,7 @@ import OjgVerif.Sen.Tables
 import OjgVerif.Sen.Writer
 import OjgVerif.Sen.WriterIndent
 import OjgVerif.Sen.Layout
+import OjgVerif.Sen.WriterStream
 import OjgVerif.Json.Spec
 /-! Driver ops of the SEN family (C10, C03sen, C06sen, C07sen). -/
 namespace OjgVerif.Sen
@@ -254,6 +255,19 @@ def handle : List String → String
             if isLayout o v' t && canonRender (tree.length + 2) v' == canonRender (tree.length + 2) v then "1r" else "0"
           | _ => "0"
     | _, _ => "bad-op"
+  -- `swrite <opts n e h> <tab 0|1> <Indent> <WriteLimit> <tree>` = the chunks sen.Write hands to the io.Writer
+  -- (`senWriteTo`), hex, comma separated; `panic` if an index went out of range
+  | ["swrite", opts, tab, ind, lim, tree] =>
+    match parseTree tree, ind.toNat?, lim.toNat? with
+    | some v, some n, some l =>
+      if opts.toList.any (fun c => c ≠ 'n' && c ≠ 'e' && c ≠ 'h' && c ≠ '-') then "bad-op"
+      else if tab ≠ "0" && tab ≠ "1" then "bad-op"
+      else
+        match senWriteTo { omitNil := opts.contains 'n', omitEmpty := opts.contains 'e', html := opts.contains 'h' }
+            { tab := tab = "1", indent := n } l v with
+        | some cs => if cs.isEmpty then "-" else String.intercalate "," (cs.map toHexF)
+        | none => "panic"
+    | _, _, _ => "bad-op"
   | ["byteclass"] =>
     -- for every byte: its senMap class and what the parser tables do with it where a string or key
     -- written by AppendSENString can put it (the harness picks class representatives from this)
